@@ -106,6 +106,13 @@ def gradient(c, kind, dom, m=2, n=2):
     q = c.vec('q', n); w[:] = q
     c.eq('gradient_wrt_cuqiarray_after_in_place_update_uses_the_current_values', np.asarray(model.gradient(d, w)),
          c.grad_of(lambda v: np.sum(np.asarray(model.forward(v)) * d), q), tol=1e-4)
+    # the linearisation point and the direction given as FUNCTION values (flags of the public signature)
+    if identity_like:
+        c.eq('gradient_with_wrt_given_as_function_values', np.asarray(model.gradient(d, gd.par2fun(p), is_wrt_par=False)), spec, tol=1e-4)
+        c.eq('gradient_with_wrt_given_as_function_form_cuqiarray', np.asarray(model.gradient(d, CUQIarray(gd.par2fun(p), is_par=False, geometry=gd))), spec, tol=1e-4)
+    else:
+        c.expect_raise('wrt_as_function_values_refused_without_fun2par', lambda: model.gradient(d, gd.par2fun(p), is_wrt_par=False))
+    c.eq('gradient_with_direction_given_as_function_values', np.asarray(model.gradient(model.range_geometry.par2fun(d), p, is_direction_par=False)), spec, tol=1e-4)
     ga = model.gradient(CUQIarray(d, geometry=model.range_geometry), p)
     c.holds('cuqiarray_direction_gives_cuqiarray_gradient', isinstance(ga, CUQIarray))
     c.eq('gradient_of_cuqiarray_direction', np.asarray(ga), spec, tol=1e-4)
